@@ -25,7 +25,7 @@ def functions(ns):
 def instantiations(tier, seed):
     rng = random.Random(seed * 7919 + 3)
     out = []
-    skels = F.pl_family(tier, seed, n_quick=20, n_thorough=800)
+    skels = F.pl_family(tier, seed, n_quick=50, n_thorough=800)
     for k, sk in enumerate(skels):
         names = F.ALT_NAMES[(k + seed) % len(F.ALT_NAMES)]
         m = F.rename(F.symbolize(sk), names)
